@@ -41,6 +41,11 @@ def run(ctx):
     ctx.rule('R15.3', 'isometry entry points pack (t.x,t.y,t.z, w.x,w.y,w.z) and agree with the vector entry points')
     cj = util.find_one(ctx, suffix='jacobian::compute_jacobian')
     cls = util.closure_bodies(prog, cj.path)
+    if not cls:
+        # the columns are computed and stored in one loop of compute_jacobian itself
+        _columns_in_a_loop(ctx, cj)
+        _entry_points(ctx, prog, cj)
+        return
     ctx.require(len(cls) == 1, 'column closure of compute_jacobian')
     c = cls[0]
     ctx.fn(c)
@@ -134,6 +139,10 @@ def run(ctx):
             ok = isinstance(base, tuple) and base[0] == 'agg' and base[1].endswith('Range') and util.const_val(base[2]) == 0 and util.const_val(base[3]) == 6
     ctx.check(ok, 'R15.1', 'all-columns', cj.where(0), cj.path, 'columns must be computed for i in 0..6')
 
+    _entry_points(ctx, prog, cj)
+
+
+def _entry_points(ctx, prog, cj):
     # ---- R15.2 / R15.3
     J = {}
     for name in ('velocities', 'velocities_fixed', 'velocities_from_vector', 'torques', 'torques_from_vector', 'new'):
@@ -142,7 +151,7 @@ def run(ctx):
     rv = [strip(x[0]) for x in tv.return_values()]
     ok = False
     if len(rv) == 1:
-        m = _unwrap_v6(rv[0])
+        m = _tr_mul_normal(_unwrap_v6(rv[0]))
         ok = isinstance(m, tuple) and m[0] == 'call' and cname(m[1]).endswith('::mul') and _is_transpose_of_matrix(m[2]) and util.is_param(m[3], 2)
     ctx.check(ok, 'R15.2', 'torques_from_vector', tv.where(0), tv.path, 'torques must be transpose(J) * F', found=show(rv[0], maxdepth=5) if rv else None)
     t = J['torques']
@@ -150,13 +159,13 @@ def run(ctx):
     ok = False
     pk = None
     if len(rv) == 1:
-        m = _unwrap_v6(rv[0])
+        m = _tr_mul_normal(_unwrap_v6(rv[0]))
         if isinstance(m, tuple) and m[0] == 'call' and cname(m[1]).endswith('::mul') and _is_transpose_of_matrix(m[2]):
-            pk = _pack_order(m[3])
+            pk = _pack_order(m[3], t)
             ok = pk == ['t.x', 't.y', 't.z', 'w.x', 'w.y', 'w.z']
         elif isinstance(rv[0], tuple) and rv[0][0] == 'call' and rv[0][1] == tv.path and util.is_param(rv[0][2], 1):
             # delegation to the vector entry point (checked above as transpose(J) * F)
-            pk = _pack_order(rv[0][3])
+            pk = _pack_order(rv[0][3], t)
             ok = pk == ['t.x', 't.y', 't.z', 'w.x', 'w.y', 'w.z']
     ctx.check(ok, 'R15.3', 'torques', t.where(0), t.path, 'torques(isometry) must equal torques_from_vector(pack(isometry)) with pack = (t.x,t.y,t.z,w.x,w.y,w.z)', found=pk)
     v = J['velocities']
@@ -164,7 +173,7 @@ def run(ctx):
     ok = False
     pk = None
     if len(rv) == 1 and isinstance(rv[0], tuple) and rv[0][0] == 'call' and rv[0][1] == J['velocities_from_vector'].path and util.is_param(rv[0][2], 1):
-        pk = _pack_order(rv[0][3])
+        pk = _pack_order(rv[0][3], v)
         ok = pk == ['t.x', 't.y', 't.z', 'w.x', 'w.y', 'w.z']
     ctx.check(ok, 'R15.3', 'velocities', v.where(0), v.path, 'velocities(isometry) must be velocities_from_vector(pack(isometry))', found=pk)
     vf = J['velocities_fixed']
@@ -200,6 +209,84 @@ def run(ctx):
     C03.run(ctx)
 
 
+def _columns_in_a_loop(ctx, cj):
+    """R15.1 when compute_jacobian has no column closure: one loop over i in 0..6 perturbs slot i of a copy of the joints,
+    differences forward() against the unperturbed pose and stores both differences into column i."""
+    from .C16 import _root_local
+    ctx.require(cj.local_ty(3) == 'f64', 'compute_jacobian(robot, joints, epsilon)')
+
+    def is_eps(t):
+        return util.is_param(t, 3)
+    fwd = [(bi, t) for bi, t in cj.calls() if cname(callee_name(t)) == 'Kinematics::forward']
+    unpert = [(bi, t) for bi, t in fwd if util.is_param(cj.op_term(t['args'][1], (bi, None)), 2)]
+    pertc = [(bi, t) for bi, t in fwd if (bi, t) not in unpert]
+    ctx.require(len(unpert) == 1 and len(pertc) == 1, 'one forward() at the given joints and one at the perturbed joints')
+    cur = strip(cj.call_term(unpert[0][1], (unpert[0][0], None)))
+    pbi, pt = pertc[0]
+    pert = strip(cj.call_term(pt, (pbi, None)))
+    ok = False
+    found = None
+    index = None
+    loc = _root_local(cj, pt['args'][1], pbi)
+    if loc is not None:
+        init = [d for d in cj.defs().get(loc, []) if d[4]]
+        ws = partial_writes(cj, lambda lhs, i, j: lhs['local'] == loc and len(lhs['proj']) == 1)
+        if len(init) == 1 and len(ws) == 1:
+            A = strip(cj._def_term(init[0]))
+            i, j, it, v = ws[0]
+            v = strip(v)
+            found = 'q[%s] := %s' % (show(it, maxdepth=3), show(v, maxdepth=4))
+            init_ok = util.is_param(A, 2)
+            src = util.loop_source(it)
+            r = util.range_of(src) if src is not None else None
+            idx_ok = r is not None and util.const_val(r[0]) == 0 and util.const_val(r[1]) == 6 and not [a for a in r[2] if a != 'into_iter']
+            val_ok = isinstance(v, tuple) and v[0] == 'bin' and v[1] == 'Add' and isinstance(strip(v[2]), tuple) and strip(v[2])[0] == 'idx' and \
+                strip(strip(v[2])[2]) == strip(it) and is_eps(v[3])
+            ok = init_ok and idx_ok and val_ok
+            index = strip(it)
+            ctx.check(idx_ok, 'R15.1', 'all-columns', cj.where(i, j), cj.path, 'columns must be computed for i in 0..6', found=show(it, maxdepth=4))
+    ctx.check(ok, 'R15.1', 'perturbation', cj.where(pbi), cj.path, 'column i must be computed at joints with exactly slot i increased by epsilon', found=found, detail=found or '')
+
+    def is_unperturbed(t, part):
+        return mir.contains(t, lambda x: x == cur) and not mir.contains(t, lambda x: x == pert) and part in show(t, maxdepth=6)
+    rows = {}
+    for bi, t in cj.calls():
+        if not cname(callee_name(t)).endswith('::copy_from'):
+            continue
+        dst = strip(cj.op_term(t['args'][0], (bi, None)))
+        src = strip(cj.op_term(t['args'][1], (bi, None)))
+        while isinstance(dst, tuple) and dst[0] == 'mutb':
+            dst = strip(dst[2])
+        if isinstance(dst, tuple) and dst[0] == 'call' and cname(dst[1]).endswith('::fixed_view_mut') and len(dst) == 5:
+            rows[util.const_val(dst[3])] = (strip(dst[4]), src, bi)
+    okp = oko = False
+    fp = fo = None
+    if 0 in rows:
+        col, dp, bi = rows[0]
+        fp = show(dp, maxdepth=6)
+        if col == index and isinstance(dp, tuple) and dp[0] == 'call' and cname(dp[1]).endswith('::div') and is_eps(dp[3]):
+            sb = strip(dp[2])
+            if isinstance(sb, tuple) and sb[0] == 'call' and cname(sb[1]).endswith('::sub'):
+                a, b_ = strip(sb[2]), strip(sb[3])
+                okp = mir.contains(a, lambda x: x == pert) and 'translation' in show(a, maxdepth=5) and is_unperturbed(b_, 'translation')
+    if 3 in rows:
+        col, do, bi = rows[3]
+        fo = show(do, maxdepth=7)
+        if col == index and isinstance(do, tuple) and do[0] == 'call' and cname(do[1]).endswith('::div') and is_eps(do[3]):
+            sa = strip(do[2])
+            if isinstance(sa, tuple) and sa[0] == 'call' and cname(sa[1]).endswith('::scaled_axis'):
+                w = algebra.word(sa[2])
+                oko = len(w) == 2 and w[0][1] == 1 and w[1][1] == -1 and mir.contains(w[0][0], lambda x: x == algebra.canon(pert)) and \
+                    'rotation' in show(w[0][0], maxdepth=5) and mir.contains(w[1][0], lambda x: x == algebra.canon(cur)) and 'rotation' in show(w[1][0], maxdepth=5)
+                fo = algebra.show_word(w, lambda a: show(a, maxdepth=3))
+    ctx.check(okp, 'R15.1', 'position-rows', cj.where(rows[0][2]) if 0 in rows else cj.where(0), cj.path, 'position rows must be (P_perturbed - P_current) / epsilon', found=fp, detail=fp or '')
+    ctx.check(oko, 'R15.1', 'rotation-rows', cj.where(rows[3][2]) if 3 in rows else cj.where(0), cj.path,
+              'rotation rows must be scaled_axis(R_perturbed * R_current^-1) / epsilon (rotation difference in the world frame)', found=fo,
+              expected='R_perturbed * R_current^-1', detail=fo or '')
+    ctx.check(set(rows) == {0, 3} and index is not None and all(v[0] == index for v in rows.values()), 'R15.1', 'storage', cj.where(0), cj.path,
+              'column i must receive the position difference at rows 0..3 and the rotation difference at rows 3..6 of the same column', found=str(sorted(rows)))
+
+
 def _unwrap_v6(t):
     t = strip(t)
     if isinstance(t, tuple) and t[0] == 'call' and cname(t[1]).endswith('vector6_to_joints'):
@@ -213,15 +300,62 @@ def _is_transpose_of_matrix(t):
         strip(t[2])[2] == 'matrix' and util.is_param(strip(t[2])[1], 1)
 
 
-def _pack_order(t):
+def _tr_mul_normal(m):
+    """nalgebra's A.tr_mul(&x) is transpose(A) * x: present it as that product"""
+    m = strip(m) if m is not None else None
+    if isinstance(m, tuple) and m[0] == 'call' and cname(m[1]).split('::')[-1] == 'tr_mul' and len(m) == 4:
+        return ('call', 'std::ops::Mul::mul', ('call', 'nalgebra::Matrix::transpose', m[2]), m[3])
+    return m
+
+
+def _kind_of(x):
+    s = show(x, maxdepth=8)
+    return 'w' if 'scaled_axis' in s else ('t' if 'translation' in s else '?')
+
+
+def _pack_order(t, body=None):
+    """component order of the 6-vector handed on: Vector6::new(six components), or a vector local filled by two
+    fixed_rows_mut::<3>(r).copy_from(&three-vector) at r = 0 and r = 3 (each 3-vector in its own x, y, z order)"""
+    t0 = t
     t = strip(t)
-    if not (isinstance(t, tuple) and t[0] == 'call' and len(t) == 8):
+    if isinstance(t, tuple) and t[0] == 'call' and len(t) == 8:
+        out = []
+        for x in t[2:]:
+            x = strip(x)
+            comp = x[2] if isinstance(x, tuple) and x[0] == 'fld' else '?'
+            out.append('%s.%s' % (_kind_of(x), comp))
+        return out
+    if body is None:
         return None
-    out = []
-    for x in t[2:]:
-        x = strip(x)
-        comp = x[2] if isinstance(x, tuple) and x[0] == 'fld' else '?'
-        s = show(x, maxdepth=8)
-        kind = 'w' if 'scaled_axis' in s else ('t' if 'translation' in s else '?')
-        out.append('%s.%s' % (kind, comp))
-    return out
+    # assembled in place
+    root = t0
+    while isinstance(root, tuple) and root[0] in ('ref', 'deref'):
+        root = root[1]
+    if not (isinstance(root, tuple) and root[0] == 'mutb'):
+        return None
+    loc = root[1]
+    parts = {}
+    others = 0
+    for bi, c in body.calls():
+        n = cname(callee_name(c)).split('::')[-1]
+        if n == 'copy_from':
+            dst = strip(body.op_term(c['args'][0], (bi, None)))
+            while isinstance(dst, tuple) and dst[0] == 'mutb':
+                dst = strip(dst[2])
+            if isinstance(dst, tuple) and dst[0] == 'call' and cname(dst[1]).split('::')[-1] == 'fixed_rows_mut' and '<3' in dst[1].replace(' ', '') + '<3':
+                v = dst[2]
+                while isinstance(v, tuple) and v[0] in ('ref', 'deref'):
+                    v = v[1]
+                if isinstance(v, tuple) and v[0] == 'mutb' and v[1] == loc:
+                    parts[util.const_val(dst[3])] = _kind_of(body.op_term(c['args'][1], (bi, None)))
+                    continue
+        if c['args'] and n not in ('zeros', 'copy_from', 'fixed_rows_mut'):
+            a0 = body.op_term(c['args'][0], (bi, None))
+            r0 = a0
+            while isinstance(r0, tuple) and r0[0] in ('ref', 'deref'):
+                r0 = r0[1]
+            if isinstance(r0, tuple) and r0[0] == 'mutb' and r0[1] == loc and bi not in [b2 for b2, _ in body.calls() if False]:
+                others += 1
+    if set(parts) == {0, 3}:
+        return ['%s.%s' % (parts[0], c) for c in 'xyz'] + ['%s.%s' % (parts[3], c) for c in 'xyz']
+    return None
